@@ -73,6 +73,18 @@ pub fn run_one(sc: &J, it: &mut Intern, out: &mut dyn Write) -> Result<(), Strin
     w(json!({"ev":"Setup","secret":secret,"k":kmax,"h":it.id(&params_bytes(&big))}));
     let targets: Vec<u32> = sc["downsize"].as_array().map(|a| a.iter().map(|x| x.as_u64().unwrap() as u32).collect()).unwrap_or((1..=kmax).collect());
     for k2 in targets {
+        // downsizing inside thread pools of several sizes (the Lagrange basis is rebuilt in parallel): same bytes every time
+        for &t in threads.iter().filter(|t| **t != 16) {
+            let mut d = big.clone();
+            let r = catch_unwind(AssertUnwindSafe(|| {
+                with_threads(t, || d.downsize(k2));
+                params_bytes(&d)
+            }));
+            match r {
+                Ok(b) => w(json!({"ev":"Downsize","secret":secret,"from_k":kmax,"k":k2,"res":"ok","threads":t,"h":it.id(&b)})),
+                Err(p) => w(json!({"ev":"Downsize","secret":secret,"from_k":kmax,"k":k2,"res":"panic","threads":t,"detail":panic_msg(p),"h":0})),
+            }
+        }
         let mut d = big.clone();
         let r = catch_unwind(AssertUnwindSafe(|| {
             d.downsize(k2);
